@@ -1,4 +1,183 @@
-"""C01 - no input crashes the shell (placeholder for the fragment alphabet; the check is completed below)."""
+"""C01 - no input crashes the shell: parse, expand and run always end in a status (spec/Lexer.tla).
+
+TLC walks the lexical mode automaton of the reader (Lexer.tla) and emits every text of <= N atoms it can reach -
+each one an input cut at that point - together with its minimal completion. Every text (cut and completed) goes
+through the in-process parser entry points under catch_unwind (tokenizer, program parser, word parser, arithmetic
+parser, pattern translation, prompt parser); a deterministic sample (quick) / all (thorough) are executed by the
+real shell with -c and over stdin. Nesting families to depth 64 and boundary literals in every numeric position
+complete the corpus.  Oracle: the run ends with an exit status - no panic, abort, signal or hang - and a text the
+automaton classifies as incomplete gets a non-zero status and a diagnostic under -c."""
+import random
+from .common import *
+
+PROP = "C01"
 FRAGMENTS = ["echo ", "a", " ", "'", '"', "$", "$(", ")", "${", "}", "$((", "))", "`", "\\", "\n", ";", "&&", "||", "|", "&", "<<E\n", "E\n", "<", ">", ">>", "2>&1",
              "if ", "then ", "fi", "for i in ", "do ", "done", "case x in ", "esac", "{ ", "(", "é", "🚀", "#", "*", "?", "[", "]", "~", "{a,b}", "{1..3}", "x=", "!",
              "[[ ", " ]]", "function f ", "() ", "$'", "\\x", "-", "=", "0", "9223372036854775807", "$@", "${x:-", "${#x}", "<(", "time ", "coproc ", "select "]
+BOUNDARY = ["0", "1", "-1", "2147483648", "9223372036854775807", "9223372036854775808", "-9223372036854775808", "99999999999999999999", "08", "0x", "64#_", "65#1", ""]
+TEMPLATES = ["echo {1..%s}", "echo {%s..3}", "echo {a..z..%s}", "echo {1..5..%s}", "echo ~%s", "echo ~-%s", "echo ~+%s", "echo x %s>/dev/null", "exec %s>&1", "x=abcdef; echo ${x:%s}",
+             "x=abcdef; echo ${x:1:%s}", "echo $((%s))", "echo $((1 << %s))", "echo $((2 ** %s))", "echo $((1 / %s))", "a=(1 2 3); echo ${a[%s]}", "a=(1 2 3); a[%s]=x", "set -- a b; echo ${%s}",
+             "shift %s", "break %s", "return %s", "exit %s", "ulimit -n %s", "umask %s", "printf '%%%sd' 1", "printf '%%.%sf' 1", "read -n %s x </dev/null", "history %s", "declare -i x=%s; echo $x",
+             "x=é; echo ${x:%s}", "declare -c x=éa%s; echo $x", "echo ${x:-%s}", "wait %%%s", "fc -l %s", "echo $'\\x%s'", "echo $'\\u%s'", "printf '\\x%s'",
+             "cd -%s", "pushd +%s", "dirs -%s", "trap : %s", "let x=%s", "(( x = %s ))", "[[ 1 -lt %s ]]", "[ 1 -lt %s ]", "test -t %s", "echo ${!x%s}", "echo ${x^^%s}", "getopts %s o", "mapfile -n %s a </dev/null",
+             "mapfile -s %s a </dev/null", "mapfile -O %s a </dev/null", "read -t %s x </dev/null", "read -u %s x", "echo ${#%s}", "for ((i=%s; i<1; i++)); do :; done", "echo {%s,}", "hash -p /bin/ls %s"]
+NEST = [("(", ")", " :"), ("{ ", "; }", ":"), ("$(", ")", "echo x"), ("${x:-", "}", "y"), ("$((", "))", "1"), ("`", "`", None), ('"$(', ')"', "echo x"), ("[[ ! ", " ]]", "a"),
+        ("if :; then ", "; fi", ":"), ("case x in x) ", ";; esac", ":"), ("while false; do ", "; done", ":"), ("f() { ", "; }", ":"), ("eval '", "'", None), ("! ", "", ":"), ("( ( ", " ) )", ":")]
+
+
+def model_texts(cfg):
+    r = run_tlc("MC_Lexer", cfg, workers=min(8, NCPU), want_lines=("TEXT", "ATOMS"), timeout=3000, xmx="8g")
+    if not r["ok"]:
+        raise ToolError("Lexer.tla failed: %s" % r["violation"])
+    sp = {a["n"]: a["s"] for a in r["lines"]["ATOMS"][0]}
+    out = []
+    for t in r["lines"]["TEXT"]:
+        cut = "".join(sp[n] for n in t["t"])
+        done = cut + "".join(sp[n] for n in t["done"])
+        out.append({"cut": cut, "open": t["open"], "done": done})
+    return out, r["states"], r["distinct"]
+
+
+def nest_family():
+    out = []
+    for op, cl, inner in NEST:
+        for k in (1, 2, 8, 32, 64):
+            if op == "`" or inner is None:
+                depth = min(k, 5)
+                s = "echo x"
+                for d in range(depth):
+                    if op == "`":
+                        bs = "\\" * (2 ** d - 1)           # nested backquotes are escaped from the inside out
+                        s = "echo " + bs + "`" + s + bs + "`"
+                    else:
+                        s = "eval " + shq(s)
+                out.append(s)
+                continue
+            out.append(op * k + inner + cl * k)
+            out.append(op * k + inner + cl * (k - 1))          # one closer missing
+            out.append(op * k)                                  # cut
+    return out
+
+
+def shq(s):
+    return "'" + s.replace("'", "'\\''") + "'"
+
+
+def run_exec(texts, front, timeout=10):
+    def one(t):
+        r = run_script("brush", t, front=front, timeout=timeout)
+        return t, r
+    return pmap(one, texts)
+
+
+def run(tier):
+    v = Verdict(PROP, tier, "exploration")
+    build_harness()
+    rnd = random.Random(SEED)
+    cfgs = ["MC_Lexer_quick.cfg"] if tier == "quick" else ["MC_Lexer_quick.cfg", "MC_Lexer_core.cfg"]
+    texts, states, distinct = [], 0, 0
+    for cfg in cfgs:
+        t, s, d = model_texts(cfg)
+        texts += t
+        states += s; distinct += d
+    incomplete = {}
+    corpus = set()
+    for t in texts:
+        corpus.add(t["cut"])
+        corpus.add(t["done"])
+        # a comment that runs to the end of the input is complete; the bash-specific keywords coproc / time / select change
+        # what the following atoms mean in ways the automaton does not model: neither is used for the diagnostic clause,
+        # which is raised only when brush reports success with no message while bash rejects the text
+        if [m for m in t["open"] if m != "COMMENT"] and not any(kw in t["cut"] for kw in ("coproc", "time ", "select ")):
+            incomplete[t["cut"]] = t["open"]
+    boundary = [tpl % b for tpl in TEMPLATES for b in BOUNDARY]
+    nests = nest_family()
+    for s in boundary + nests:
+        corpus.add(s)
+    corpus.discard("")
+    corpus = sorted(corpus)
+    # (1) in-process parser entry points on everything
+    from .c19 import run_linedrv
+    recs, problems = run_linedrv("parse", list(enumerate(corpus)), timeout=240)
+    for pb in problems:
+        v.violation("inproc-hang:" + str(pb.get("first_unanswered_line"))[:80], {"kind": "an in-process parser entry point hung or aborted the process", **pb})
+    n_inproc = len(recs)
+    for r in recs:
+        for p in r.get("panics", []):
+            if known_panic(v, corpus[r["id"]], p):
+                continue
+            v.violation("inproc:%s:%s" % (p.split(":")[0], corpus[r["id"]][:60]), {"kind": "panic in " + p.split(":")[0], "input": corpus[r["id"]], "panic": p})
+    # (2) process-level execution
+    execset = set(boundary + nests)
+    model_done = sorted(set(t["done"] for t in texts))
+    model_cut = sorted(incomplete)
+    k_done, k_cut = (14000, 6000) if tier == "quick" else (len(model_done), len(model_cut))
+    execset.update(rnd.sample(model_done, min(k_done, len(model_done))))
+    execset.update(rnd.sample(model_cut, min(k_cut, len(model_cut))))
+    execlist = sorted(execset)
+    n_exec = 0
+    for front in ("c", "stdin"):
+        sub = execlist if front == "c" else rnd.sample(execlist, min(len(execlist), 4000 if tier == "quick" else 40000))
+        for t, r in run_exec(sub, front):
+            n_exec += 1
+            bad = None
+            if r["panic"] or r["rc"] == 101:
+                bad = "panic at %s" % r["panic"]
+            elif r["signal"] is not None and r["signal"] not in (13,) and not r["timeout"]:
+                bad = "killed by signal %s" % r["signal"]
+            elif r["rc"] == 134:
+                bad = "abort"
+            elif r["timeout"]:
+                b = run_script("bash", t, front=front, timeout=10)
+                if not b["timeout"]:
+                    r2 = run_script("brush", t, front=front, timeout=30)
+                    if r2["timeout"]:
+                        bad = "hang (bash finishes, brush does not within 30 s)"
+            elif front == "c" and t in incomplete and r["rc"] == 0 and not r["err"].strip():
+                # the automaton is an approximation of the reader (atoms glue into words, e.g. `aif `): the clause is
+                # asserted only where bash, too, rejects the text with a diagnostic
+                b = run_script("bash", t, front=front, timeout=10)
+                if b["rc"] != 0 and b["err"].strip() and not b["timeout"]:
+                    bad = "incomplete input accepted silently (rc=%s, stderr empty=%s; bash: rc=%s)" % (r["rc"], not r["err"].strip(), b["rc"])
+            if bad:
+                if known_panic(v, t, bad + " " + r["err"][-300:]):
+                    continue
+                v.violation("%s:%s" % (front, t[:80]), {"kind": bad, "front": front, "script": t, "rc": r["rc"], "stderr": r["err"][-500:], "open_modes": incomplete.get(t)})
+    return v.finish({
+        "evaluations": n_inproc * 6 + n_exec, "distinct_nontrivial": len(corpus),
+        "rule": "texts reachable in the lexical mode automaton Lexer.tla with <= %s atoms (every prefix is a cut input; each also with its minimal completion), "
+                "nesting families to depth 64 (with one closer missing / cut), %d numeric templates x %d boundary literals; all go through 6 in-process parser entry points, a sample "
+                "(quick) / all (thorough) are executed with -c and over stdin; distinct by text, non-trivial = non-empty"
+                % ("3 (all atoms)" if tier == "quick" else "3 (all atoms) / 4 (core atoms)", len(TEMPLATES), len(BOUNDARY)),
+        "states": states, "automaton_texts": len(texts), "incomplete_texts": len(incomplete), "executed": n_exec, "in_process_calls": n_inproc * 6,
+        "exhaustive": False,
+        "samples": [{"text": corpus[len(corpus) // 3]}, {"text": corpus[len(corpus) // 2]}, {"boundary": boundary[7]}, {"nest": nests[10][:80]}],
+    }, assumptions=["model-directed exploration, not byte-level fuzzing: inputs longer than the bounds and arbitrary byte mutations are not covered",
+                    "a hang is declared only if bash finishes the same text within 10 s and brush does not within 30 s"])
+
+
+def known_panic(v, text, msg):
+    for f in v.findings:
+        if f.get("status") == "known" and f.get("mode") == "class" and f.get("match"):
+            if re.search(f["match"], msg) and (not f.get("input_match") or re.search(f["input_match"], text)):
+                v.known(f["id"], f["what"][:110])
+                return True
+    return False
+
+
+def replay(path):
+    with open(path) as f:
+        c = json.load(f)
+    build_harness()
+    if "script" in c:
+        r = run_script("brush", c["script"], front=c.get("front", "c"), timeout=30)
+        bad = r["panic"] or r["rc"] in (101, 134) or r["timeout"] or (r["signal"] not in (None, 13))
+        print("rc", r["rc"], "panic", r["panic"], "timeout", r["timeout"])
+    else:
+        from .c19 import run_linedrv
+        recs, problems = run_linedrv("parse", [(0, c["input"])])
+        bad = bool(problems) or any(r.get("panics") for r in recs)
+        print(recs)
+    if bad:
+        print("VIOLATION property=%s replay=%s" % (PROP, path))
+    return 1 if bad else 0
